@@ -29,6 +29,8 @@ def eff_tags(f, clause):
 def prop_modules(unit, prop):
     mods = []
     for f in unit.fns:
+        if f.external_body:
+            continue   # nothing to verify (assumed leaf, or the stub of a split proof)
         if prop in f.tags or prop in f.safety or any(prop in (c[2] or []) for c in f.clauses):
             if f.module not in mods:
                 mods.append(f.module)
@@ -152,18 +154,45 @@ def run_module(unit, path, module, seed, use_cache=True):
     res = runverus.run_verus_path(path, rlimit=30, module=module)
     fails, und, hard = runverus.classify(unit, res, path)
     unstable = []
-    # stability policy: undecided obligations are retried with 4x rlimit and
-    # other seeds; only if every retry is undecided does the module stay undecided
+    # stability policy (DESIGN 3.4): a function whose proof ran out of resources is re-run ON ITS OWN (fresh solver instance,
+    # proof context pruned to what the function uses, 4x the default resource limit, another random seed).  If a re-run proves it,
+    # it is proved (the instability is recorded); failures found by a re-run are kept; only if no re-run decides it does it stay
+    # undecided.  Undecided items that belong to no woven function (lemmas) fall back to a re-run of the whole module.
     if und and not hard:
-        for attempt, s in enumerate([seed % 1000 + 1, seed % 1000 + 7]):
-            res2 = runverus.run_verus_path(
-                path, rlimit=120, module=module,
-                extra=['--smt-option', 'smt.random_seed=%d' % s])
-            f2, u2, h2 = runverus.classify(unit, res2, path)
-            unstable.append(dict(attempt=attempt + 1, seed=s, undecided=len(u2)))
-            if not u2 and not h2:
-                res, fails, und, hard = res2, f2, u2, h2
+        by_fn, other = {}, []
+        for u in und:
+            fu = u.get('fn')
+            if fu is not None:
+                by_fn.setdefault(fu.addr, fu)
+            else:
+                other.append(u)
+        if other:
+            for attempt, s in enumerate([seed % 1000 + 1, seed % 1000 + 7]):
+                res2 = runverus.run_verus_path(path, rlimit=120, module=module, extra=['--smt-option', 'smt.random_seed=%d' % s])
+                f2, u2, h2 = runverus.classify(unit, res2, path)
+                unstable.append(dict(attempt=attempt + 1, seed=s, undecided=len(u2)))
+                if not u2 and not h2:
+                    res, fails, und, hard = res2, f2, u2, h2
+                    by_fn = {}
+                    break
+        still = [u for u in und if u.get('fn') is None] if by_fn else list(und)
+        for addr, fu in by_fn.items():
+            decided = False
+            for attempt, s in enumerate([seed % 1000 + 1, seed % 1000 + 7]):
+                res2 = runverus.run_verus_path(path, rlimit=120, module=module,
+                                               extra=['--verify-function', verus_fn_name(addr), '--smt-option', 'smt.random_seed=%d' % s])
+                f2, u2, h2 = runverus.classify(unit, res2, path)
+                vr2 = ((res2.get('summary') or {}).get('verification-results') or {})
+                unstable.append(dict(function=addr, attempt=attempt + 1, seed=s, undecided=len(u2), failures=len(f2)))
+                if h2 or u2 or not ((vr2.get('verified') or 0) >= 1 or f2):
+                    continue
+                decided = True
+                fails = [r for r in fails if r.get('addr') != addr] + f2
                 break
+            if not decided:
+                still += [u for u in und if u.get('fn') is not None and u['fn'].addr == addr]
+        if by_fn:
+            und = still
     # a definite failure must REPRODUCE before it counts: every function with a failing obligation is verified once more on
     # its own (fresh solver instance, 4x resource limit, another random seed).  Obligations that are then proved are proved
     # (a proof is a proof); the instability is recorded.  Failures outside woven functions (lemmas) are kept as they are.
@@ -197,6 +226,9 @@ def run_module(unit, path, module, seed, use_cache=True):
         res = dict(res, diags=[d for d in res['diags']])   # diagnostics stay as reported by the first run
         res['recheck_dropped'] = True
     wall = time.time() - t0
+    # what is memoised is the FINAL verdict: the diagnostics of the obligations that remain failed / undecided / rejected
+    # after the re-runs (classify() reproduces exactly these records from them)
+    res = dict(res, diags=[r['diag'] for r in (fails + und + hard) if r.get('diag') is not None])
     try:
         json.dump(dict(res=res, unstable=unstable, wall=wall, fails_keys=[ob_key(unit, r) for r in fails]), open(cfile, "w"))
     except Exception:
@@ -232,10 +264,16 @@ def new_callees(f):
     try:
         from .extract import Source
         cur = weave.get_source(f.src)
-        s, e, _, _ = cur.find_fn(f.addr)
+        s, e, _, _ = cur.find_fn(f.src_addr or f.addr)
         psrc = Source(os.path.join(weave.PINNED_ROOT, f.src), f.src)
-        ps, pe, _, _ = psrc.find_fn(f.addr)
-        return sorted(callees(cur.text[s:e]) - callees(psrc.text[ps:pe]) - EXACT_STD)
+        ps, pe, _, _ = psrc.find_fn(f.src_addr or f.addr)
+        ctext = cur.text[s:e]
+        try:
+            from . import inline
+            ctext = inline.expand(weave.blank_comments(ctext), weave.helper_table(), os.path.splitext(os.path.basename(f.src))[0])[0]   # rule R14
+        except Exception:
+            pass
+        return sorted(callees(ctext) - callees(psrc.text[ps:pe]) - EXACT_STD)
     except Exception:
         return None
 
@@ -436,7 +474,10 @@ def check_property(prop, tier='quick', seed=0, kani_runner=None):
             undecided_msgs.append('%s: no verification result from Verus (rc=%s): %s'
                                   % (n, r['res']['rc'], r['res']['raw_stderr'][-400:]))
         for u in r['undecided']:
-            tags = failure_tags(unit, u)
+            # a function whose proof ran out of resources has NONE of its obligations discharged: every property it carries
+            # (clause tags and safety) is undecided
+            fu = u.get('fn')
+            tags = sorted(set(fu.tags + fu.safety + [t for c in fu.clauses for t in (c[2] or [])])) if fu else failure_tags(unit, u)
             if prop in tags or not tags:
                 undecided_msgs.append('%s: undecided (resource limit) %s'
                                       % (n, runverus.obligation_id(unit, u)))
